@@ -372,7 +372,7 @@ func collectFaults(sum *Summary, ep *Episode) {
 			switch s.Outcome {
 			case 1:
 				sum.Faults["fn_returned_error"]++
-			case 2, 3:
+			case 2, 3, 4, 5:
 				sum.Faults["fn_panicked"]++
 			}
 		}
